@@ -393,6 +393,48 @@ async def run_life(steps: list[list], sending: bool = True) -> dict:
     return {"maxtrys": int(tr._SIGNATURE_MAX_TRYS), "sending": int(sending), "ev": evs}
 
 
+async def run_paused(steps: list[list]) -> dict:
+    """The receive path of a real PortTransport/PortProtocol while the real Engine._pause()/_resume() park and restore the
+    protocol (what get_state() and a cache restore do around their work).  steps: ["pause"] | ["resume"] | ["line", text, good].
+    Returns the item for spec/RxPaused.tla.  Must run inside a VLoop."""
+    import threading
+    import types
+
+    from ramses_tx.gateway import Engine
+
+    rig = await PortRig.create()
+    evs: list[dict] = []
+    eng = types.SimpleNamespace(_engine_lock=threading.Lock(), _engine_state=None, _protocol=rig.proto, _transport=rig.tr,
+                                _disable_sending=False)
+    k = 0
+    try:
+        for st in steps:
+            if st[0] == "pause":
+                Engine._pause(eng)
+                evs.append({"e": "pause", "k": 0, "good": 0, "what": ""})
+            elif st[0] == "resume":
+                Engine._resume(eng)
+                evs.append({"e": "resume", "k": 0, "good": 0, "what": ""})
+            else:
+                k += 1
+                rig.events.clear()
+                rig.frame_to_k = {st[1]: k}
+                evs.append({"e": "line", "k": k, "good": int(st[2]), "what": ""})
+                try:
+                    await rig.read(f"045 {st[1]}\r\n".encode())
+                except Exception as err:  # noqa: BLE001 - recorded, judged by TLC
+                    evs.append({"e": "exc", "k": k, "good": 0, "what": f"{type(err).__name__}@read"})
+                for e in rig.events:
+                    if e["e"] == "msg":
+                        evs.append({"e": "msg", "k": e["k"], "good": 0, "what": ""})
+                    elif e["e"] == "exc":
+                        evs.append({"e": "exc", "k": k, "good": 0, "what": f"{(e.get('mro') or ['?'])[0]}@loop"})
+        evs.append({"e": "end", "k": 0, "good": 0, "what": ""})
+    finally:
+        rig.close()
+    return {"ev": evs}
+
+
 def life_schedules(full: bool) -> list[tuple[list[list], bool]]:
     """Systematic: where, relative to the signature writes (one every 50 ms, at most _SIGNATURE_MAX_TRYS), the echo
     and other packets arrive - before the first write, between writes, right at a write, during the last sleep,
